@@ -47,8 +47,13 @@ fn templates() -> Vec<(&'static str, Program)> {
     tops.push(start_fn(vec![
         def("n5", callv("n1", vec![int(2)])),
         Stmt::Loop(Some(bin(BinOp::Lt, var("n5"), int(5))), vec![def("n6", add(var("n5"), int(1))), print_of(var("n6")), assign("n5", var("n6"))]),
-        Stmt::Expr(Expr::Case(Box::new(e_a(var("n5"))), vec![CaseArm { variant: "A".into(), bind: Some("n7".into()), body: vec![print_of(add(var("n7"), var("n0")))] }], Some(vec![print_of(int(0))]))),
-        print_of(var("n0")),
+        Stmt::Expr(Expr::Case(
+            Box::new(e_a(var("n5"))),
+            vec![CaseArm { variant: "A".into(), bind: Some("n7".into()), body: vec![def("n9", add(var("n7"), var("n0"))), print_of(var("n9"))] }],
+            Some(vec![def("n8", bin(BinOp::Mul, var("n5"), int(3))), print_of(var("n8"))]),
+        )),
+        Stmt::Expr(Expr::Case(Box::new(Expr::Variant("E".into(), "B".into(), None)), vec![CaseArm { variant: "A".into(), bind: Some("n7".into()), body: vec![print_of(var("n7"))] }], Some(vec![def("n8", add(var("n5"), int(100))), print_of(var("n8"))]))),
+        print_of(add(var("n0"), var("n5"))),
     ]));
     v.push(("globals-params-locals", Program { tops }));
     // T2: closures and blocks: outer local, closure param, closure local, nested block local, second closure
